@@ -4,7 +4,6 @@ let show_u32 (x:z) : string = z_to_string x
 let ty_of (s:string) : z = z_of_int (Char.code s.[0])
 let show_ty (t:z) : string = String.make 1 (Char.chr (int_of_z t))
 let show_msg = function
-  | EmptyMsg -> "EMPTY"
   | SetMsg (a, ty, v) -> Printf.sprintf "%s/%s/%s" (hex_of_bytes a) (show_ty ty) (show_u32 v)
 let show_hist (s:hstate) : string =
   Printf.sprintf "p=%d n=%d h=%s" (int_of_nat s.pos) (List.length s.hist)
@@ -40,13 +39,16 @@ let run_e2e ops =
   let st = ref (zero_store, init) in
   let show_app () =
     let f = fst !st in
-    Printf.sprintf " a=%d,%d,%d" (s32_of_u32 (f (bytes_of_string "/b"))) (s32_of_u32 (f (bytes_of_string "/i")))
-      (s32_of_u32 (f (bytes_of_string "/j"))) in
+    Printf.sprintf " a=%d,%d,%d,%s,%s,%s,%s" (s32_of_u32 (f (bytes_of_string "/b"))) (s32_of_u32 (f (bytes_of_string "/i")))
+      (s32_of_u32 (f (bytes_of_string "/j"))) (show_u32 (f (bytes_of_string "/x"))) (show_u32 (f (bytes_of_string "/a0")))
+      (show_u32 (f (bytes_of_string "/a1"))) (show_u32 (f (bytes_of_string "/a2"))) in
   let outs = List.map (fun o ->
     match String.split_on_char ':' o with
     | ["c"; p; v] ->
-      let ty = if p = "b" then "c" else "i" in
-      (match estep !st (Change (bytes_of_string ("/" ^ p), ty_of ty, u32_of_int (int_of_string v))) with
+      let isf = (p = "x" || p.[0] = 'a') in
+      let ty = if p = "b" then "c" else if isf then "f" else "i" in
+      let value = if isf then u32 v else u32_of_int (int_of_string v) in
+      (match estep !st (Change (bytes_of_string ("/" ^ p), ty_of ty, value)) with
        | Some (s, _) -> st := s; show_hist (snd s) ^ show_app ()
        | None -> "OOB")
     | ["s"; k] ->
